@@ -19,6 +19,7 @@ import (
 	"math/rand/v2"
 	"os"
 	"path/filepath"
+	"runtime/debug"
 	"sort"
 	"strings"
 	"sync"
@@ -71,6 +72,7 @@ func allInputs(seed uint64, ne int) []*Input {
 	for i, p := range per {
 		out = append(out, p...)
 		out = append(out, shapeInputs(dmodel.Dialects[i])...)
+		out = append(out, fileInputs(seed, dmodel.Dialects[i])...)
 		if dmodel.Dialects[i] != dmodel.SQLite { // SQLite's planner refuses AddSchema / DropSchema
 			out = append(out, rawInputs(dmodel.Dialects[i])...)
 		}
@@ -278,6 +280,12 @@ func Derived(kind string, differs map[string]bool) bool {
 		return false
 	}
 	switch {
+	case kind == "changes":
+		return up("eval.order.from", "eval.order.to")
+	case kind == "hcl.from":
+		return up("eval.order.from")
+	case kind == "hcl.to":
+		return up("eval.order.to")
 	case kind == "plan.cmds":
 		return up("changes")
 	case kind == "plan.full":
@@ -480,6 +488,8 @@ func digestsOf(m map[string][]byte) map[string]string {
 func nDirs(c *rt.Ctx) int { return c.Pick(20, 60) }
 
 func run(c *rt.Ctx) {
+	// the workload allocates heavily on all cores; memory is not the bottleneck
+	debug.SetGCPercent(400)
 	reps := 20
 	ins := allInputs(c.Seed, nEdit(c))
 	dirs := DirInputs(c.Seed, nDirs(c))
@@ -510,6 +520,7 @@ func run(c *rt.Ctx) {
 // ---------------------------------------------------------------------------------------------------
 
 func runDigest(c *rt.Ctx) {
+	debug.SetGCPercent(400)
 	ins := allInputs(c.Seed, nEdit(c))
 	dirs := DirInputs(c.Seed, nDirs(c))
 	res := make([]map[string]string, len(ins)+len(dirs))
